@@ -226,6 +226,7 @@ def _columns(prog, chk, spec):
 
 
 def _framing(prog, chk, L4):
+    from . import c03 as _c03
     zc = prog.func('djinterop::engine::zlib_compress')
     zu = prog.func('djinterop::engine::zlib_uncompress')
     chk.analysed(zc)
@@ -241,7 +242,7 @@ def _framing(prog, chk, L4):
             recv = strip(children(callee)[0], explicit=True) if children(callee) else {}
             rid = (recv.get('referencedDecl') or {}).get('id')
             if callee.get('name') == 'resize' and rid == out_param:
-                a = program.literal_value(children(n)[1]) if len(children(n)) > 1 else None
+                a = _c03._const_int(prog, zc, children(n)[1]) if len(children(n)) > 1 else None
                 if a == 4:
                     ok_resize = True
                     order.append('resize')
@@ -295,22 +296,38 @@ def _framing(prog, chk, L4):
                     chk.violation(L4, 'zlib_uncompress|prefix', locstr(n),
                                   'the length prefix is read with %s%s; the format is a 4-byte big-endian '
                                   'length at offset 0' % (nm, '' if at_start else ' at a non-zero offset'))
-        if n.get('kind') == 'VarDecl' and n.get('name') == 'ptr':
-            init = [x for x in children(n) if not x['kind'].endswith('Attr')]
-            if init:
-                e = strip(init[-1], explicit=True)
-                off = None
-                if e.get('kind') == 'BinaryOperator' and e.get('opcode') == '+':
-                    off = program.literal_value(children(e)[1])
-                elif e.get('kind') == 'UnaryOperator' and e.get('opcode') == '&':
-                    for x in walk(e):
-                        if x.get('kind') == 'IntegerLiteral':
-                            off = int(x['value'])
-                if off == 4:
-                    ok_off = True
-                else:
-                    chk.violation(L4, 'zlib_uncompress|offset', locstr(n),
-                                  'the deflate stream is read from offset %r, the format puts it at offset 4' % off)
+    # where the deflate stream is read from: the cursor handed to the z_stream (strm.next_in = cursor), by
+    # its initial value `input.data() + K` / `&input[K]`
+    cursors = []
+    for n in walk(zu.body):
+        if n.get('kind') == 'BinaryOperator' and n.get('opcode') == '=':
+            l = strip(children(n)[0], explicit=True)
+            if l.get('kind') == 'MemberExpr' and l.get('name') == 'next_in':
+                for x in walk(children(n)[1]):
+                    if x.get('kind') == 'DeclRefExpr' and (x.get('referencedDecl') or {}).get('kind') == 'VarDecl' \
+                            and '*' in (x.get('type') or ''):
+                        d = zu.tu.ids.get(x['referencedDecl']['id'])
+                        if d is not None and d not in cursors:
+                            cursors.append(d)
+    if len(cursors) != 1:
+        raise AnalysisBroken('zlib_uncompress: the input cursor handed to the z_stream was not found (%d candidates)'
+                             % len(cursors))
+    for n in cursors:
+        init = [x for x in children(n) if not x['kind'].endswith('Attr')]
+        if init:
+            e = strip(init[-1], explicit=True)
+            off = None
+            if e.get('kind') == 'BinaryOperator' and e.get('opcode') == '+':
+                off = _c03._const_int(prog, zu, children(e)[1])
+            elif e.get('kind') == 'UnaryOperator' and e.get('opcode') == '&':
+                for x in walk(e):
+                    if x.get('kind') == 'IntegerLiteral':
+                        off = int(x['value'])
+            if off == 4:
+                ok_off = True
+            else:
+                chk.violation(L4, 'zlib_uncompress|offset', locstr(n),
+                              'the deflate stream is read from offset %r, the format puts it at offset 4' % off)
     if ok_read and ok_off:
         chk.ok(L4, 'zlib_uncompress: int32 BE length at offset 0, stream from offset 4', locstr(zu.node))
     elif not ok_read:
@@ -341,15 +358,41 @@ def _deflate_complete(prog, chk, L4, zc):
     else:
         ocond, obody = children(outer)[0], children(outer)[-1]
         test_first = True
-    vars_ = {x.get('name'): x for x in walk(zc.body) if x.get('kind') == 'VarDecl'}
+    from . import c03 as _c03
     strm = [x for x in walk(zc.body) if x.get('kind') == 'VarDecl' and 'z_stream' in (x.get('type') or '')]
-    if 'ptr' not in vars_ or 'end' not in vars_ or len(strm) != 1:
-        raise AnalysisBroken('zlib_compress: ptr / end / z_stream variables not found')
+    if len(strm) != 1:
+        raise AnalysisBroken('zlib_compress: z_stream variable not found')
     sid = strm[0]['id']
-    chunk = None
-    for nm in ('chunk_size',):
-        if nm in vars_:
-            chunk = program.literal_value(vars_[nm])
+    # roles by data flow: the input cursor is the pointer stored into strm.next_in, the limit is the other
+    # pointer it is compared with / subtracted from, the chunk size is the constant given to strm.avail_out
+    def ptr_vars(e):
+        out = []
+        for x in walk(e):
+            if x.get('kind') == 'DeclRefExpr' and (x.get('referencedDecl') or {}).get('kind') == 'VarDecl' \
+                    and '*' in (x.get('type') or ''):
+                d = zc.tu.ids.get(x['referencedDecl']['id'])
+                if d is not None and d not in out:
+                    out.append(d)
+        return out
+    cur, chunk = [], None
+    for n in walk(zc.body):
+        if n.get('kind') == 'BinaryOperator' and n.get('opcode') == '=':
+            l = strip(children(n)[0], explicit=True)
+            if l.get('kind') == 'MemberExpr' and l.get('name') == 'next_in':
+                cur += [d for d in ptr_vars(children(n)[1]) if d not in cur]
+            elif l.get('kind') == 'MemberExpr' and l.get('name') == 'avail_out':
+                v = _c03._const_int(prog, zc, children(n)[1])
+                chunk = v if isinstance(v, int) else chunk
+    lim = []
+    if len(cur) == 1:
+        for n in walk(zc.body):
+            if n.get('kind') == 'BinaryOperator' and n.get('opcode') in ('<', '<=', '>', '>=', '-', '==', '!='):
+                vs = ptr_vars(n)
+                if cur[0] in vs:
+                    lim += [d for d in vs if d is not cur[0] and d not in lim]
+    if len(cur) != 1 or len(lim) != 1:
+        raise AnalysisBroken('zlib_compress: input cursor / limit variables not found')
+    vars_ = {'ptr': cur[0], 'end': lim[0]}
     if not isinstance(chunk, int) or chunk <= 0:
         raise AnalysisBroken('zlib_compress: chunk size constant not found')
     Z_FINISH = 4
